@@ -201,7 +201,21 @@ func errResultIndex(fn *ssa.Function) int {
 	return -1
 }
 
-func fname(f *ssa.Function) string { return an.ShortName(f) }
+// nick gives closures that play a structural role a stable name, so that
+// obligation keys do not depend on go/ssa's closure numbering.
+var nick = map[*ssa.Function]string{}
+
+func fname(f *ssa.Function) string {
+	if n, ok := nick[f]; ok {
+		return n
+	}
+	if p := f.Parent(); p != nil {
+		if n, ok := nick[p]; ok {
+			return n + strings.TrimPrefix(f.Name(), p.Name())
+		}
+	}
+	return an.ShortName(f)
+}
 
 func sortedKeys[M ~map[string]V, V any](m M) []string {
 	var ks []string
